@@ -18,7 +18,10 @@ Inductive world :=
 | WMany (ver : N * N * N) (first stride count : N)
 (* the ontology of [w] with the category and modifier groups replaced through the public
    categories_mut() / modifier_mut() (any ids, not only the default roots) *)
-| WCustom (w : world) (cats mods : list N).
+| WCustom (w : world) (cats mods : list N)
+(* the ontology of [w] after the public set_default_categories() and then set_default_modifier() were called on it
+   (whatever groups it had before are REPLACED); the first error ends the world *)
+| WDefaults (w : world).
 
 (* the f32::ln oracle table travels with the case *)
 Definition winput : Type := world * list (N * N).
@@ -64,6 +67,17 @@ Fixpoint build_world (tbl : list (N * N)) (w : world) : res (list N * res onto) 
       do r <- build_world tbl w' ;;
       match snd r with
       | Ok o => Ok (fst r, Ok (set_cat (g_from_list cats) (set_mod (g_from_list mods) o)))
+      | _ => Ok r
+      end
+  | WDefaults w' =>
+      do r <- build_world tbl w' ;;
+      match snd r with
+      | Ok o =>
+          match (do o1 <- set_default_categories o ;; set_default_modifier o1) with
+          | Panic => Panic
+          | Fuel => Fuel
+          | r' => Ok (fst r, r')
+          end
       | _ => Ok r
       end
   end.
